@@ -64,7 +64,7 @@ func (m *Mutex) Unlock() {
 }
 
 // RWMutex replaces sync.RWMutex. Like the real one it blocks new readers while
-// a writer is waiting.
+// a writer is blocked waiting for the readers that hold it.
 type RWMutex struct {
 	real    sync.RWMutex
 	writer  *Task
@@ -82,7 +82,14 @@ func (m *RWMutex) Lock() {
 	t := s.self()
 	raceDisable()
 	s.lock()
-	m.wwait++
+	// A writer keeps new readers out only while it is really blocked (the lock is held). If the lock
+	// is free, parking here stands for "descheduled just before calling Lock": readers that arrive
+	// meanwhile get in. Counting such a writer as waiting would prune exactly those interleavings
+	// (it hid a race between Session.Stop and the dispatch of the peer's Logout answer).
+	if m.writer != nil || m.readers > 0 {
+		m.wwait++
+		t.wcounted = true
+	}
 	s.unlock()
 	raceEnable()
 	t.waitR, t.waitW = m, true
